@@ -112,13 +112,16 @@ CHECKS["C19"] = dict(level="model_checking", ref="DESIGN.md §4 C19, §9",
     tech="TLA+ model Pool evaluated by TLC as oracle over recorded histories of a real pool (trace validation)")
 
 CHECKS["C17"] = dict(level="model_checking", ref="DESIGN.md §4 C17, §9",
-    text="TLA+ sequential reference AppContract (dependencies first, members in order, Start once, failed start leaves nothing running, mode rule Permanent / "
+    text="TLA+ model App of ApplicationStart / Stop / StopForce and member termination at atomic-step granularity (state word, the group's RW lock, the stop channel): TLC "
+         "refutes the three former designs (Kill inside Range: self-deadlock; a stop request during the start: live members under a stopped application; a member gone before it "
+         "is registered: a ghost in the group) and the repaired design holds for every mode x force x failing start. TLA+ sequential reference AppContract (dependencies first, members in order, Start once, failed start leaves nothing running, mode rule Permanent / "
          "Transient / Temporary, Terminate once with the causing reason, back to loaded, stop reports success only when everything is down) used as oracle: systematic "
          "histories (every mode x 1-3 members x every member x every reason, a second member leaving its handler with its own reason while the application is already stopping, explicit start modes, failing k-th member, dependencies, stop / stop-force / unload / "
-         "restart, unload attempted while a parked member keeps a stop in progress, start attempted while the dependency is on its way down) and seeded random ones are executed on a real node in a subprocess (a call that never returns is an observation) and TLC replays every recorded line.",
-    note="Trusted: TLC; operations are sequential (quiescence after each): races between concurrent API calls and member deaths (App atomic-step model, DESIGN Appendix G) "
-         "are not bound to the code yet; 1-4 members, one dependency.",
-    tech="TLA+ reference AppContract evaluated by TLC as oracle over recorded histories of a real node (trace validation)")
+         "restart, unload attempted while a parked member keeps a stop in progress, start attempted while the dependency is on its way down, a member killed between its spawn and its registration, a stop request while the start is between two members, "
+         "two overlapping terminations of one run - placed with the app.store / app.term.* yield points) and seeded random ones are executed on a real node in a subprocess (a call that never returns is an observation) and TLC replays every recorded line.",
+    note="Trusted: TLC; apart from the three placed races the operations are sequential (quiescence after each); the App model is bound to the code through those placed races, not by "
+         "replaying every edge of its state graph; 1-4 members, one dependency.",
+    tech="TLA+ model App model-checked by TLC (former designs refuted); TLA+ reference AppContract evaluated by TLC as oracle over recorded histories of a real node (trace validation)")
 
 CHECKS["C18"] = dict(level="model_checking", ref="DESIGN.md §4 C18, §9",
     text="TLA+ sequential reference Events (token rule, last-N buffer, delivery once and in order to every current subscriber, exit/down on unregister or "
